@@ -155,6 +155,9 @@ func (r *Reporter) Finish(cov Coverage) int {
 		cov["undecided"] = r.Undecided
 		cov["exhaustive"] = false
 	}
+	if r.Assume == nil {
+		r.Assume = []string{}
+	}
 	ev := map[string]interface{}{
 		"property_id": r.Prop,
 		"tier":        r.Tier,
